@@ -64,7 +64,7 @@ PrefixNames(parts) == [i \in 1..Len(parts) |-> JoinStr(SubSeq(parts, 1, i), ".")
 Names == { <<"a">>, <<"a", "b">>, <<"a", "b", "c">>, <<"a", "b", "c", "d">>, <<"svc", "prod">>, <<"x1", "y-2", "z_3">> }
 Rots == 0..4
 
-CasesC03 ==
+CasesC03(lazy) ==
   (* filename chains under every rotation of the extensions *)
   { LET ch == PrefixNames(n) IN
     Case(FsOf([i \in DOMAIN ch |-> Plain(ch[i], rot, i)], <<>>), <<ch[Len(ch)] \o "." \o ExtAt(Len(ch), rot)>>,
@@ -172,7 +172,7 @@ Fs18(extra) ==
   (R \o "/a.yaml" :> File(<<LayerDoc("a", <<>>)>>)) @@ ("/w/out.yaml" :> Decoy) @@ ("/w/out.b.yaml" :> Decoy)
   @@ ("/w/other/o.yaml" :> Decoy) @@ (R \o "/sub/s.yaml" :> File(<<LayerDoc("s", <<>>)>>)) @@ extra
 
-CasesC18 ==
+CasesC18(lazy) ==
   { Case(Fs18(In("a.b.yaml", <<LayerDoc("a.b", [pk \in {"$parent"} |-> S(pv)])>>)), <<"root/a.b.yaml">>, FALSE, R, "parentescape", Fails)
       : pv \in {"../out", "../other/o", "/w/out", "sub/../../out", "../out.*"} }
   \cup { Case(Fs18(In("a.b.yaml", <<LayerDoc("a.b", [pk \in {"$parent"} |-> S(pv)])>>)), <<"root/a.b.yaml">>, FALSE, R, "parentinside",
@@ -242,7 +242,7 @@ Chain3(u, t, e1, e2, e3) == FsOf(<< <<"a", e1, <<Base04>> >>, <<"a.b", e2, <<u>>
 EmptyDocBase(e1, e2, first) ==
   FsOf(<< <<"a", e1, IF first THEN <<EmptyMap, Single("x", I("1"))>> ELSE <<Single("x", I("1")), EmptyMap>> >>,
           <<"a.b", e2, <<Mk2("$match", EmptyMap, "y", I("2"))>> >> >>, <<>>)
-CasesC04 ==
+CasesC04(lazy) ==
   {Case(EmptyDocBase(e1, e2, fst), <<"a.b." \o e2>>, FALSE, "/", "emptydoc", <<"free", EmptyDocBase("json", "json", fst), <<"a.b.json">> >>)
      : e1 \in Fmts04, e2 \in Fmts04, fst \in BOOLEAN} \cup
   {Case(Chain2(u, e1, e2), <<"a.b." \o e2>>, FALSE, "/", "two", <<"free", Chain2(u, "json", "json"), <<"a.b.json">> >>)
@@ -253,7 +253,7 @@ StripRun(r) == IF r.ok THEN [ok |-> TRUE, outs |-> r.v.outs] ELSE [ok |-> FALSE,
 LawC04(cs) ==   \* FormatFree: the all-JSON writing of the same chain gives the same result
   StripRun(RunOf(cs)) = StripRun(RunLayers(cs.expect[2], RootAt("/"), [i \in DOMAIN cs.expect[3] |-> Abs(W, cs.expect[3][i])], FALSE, <<>>))
 
-Cases == CASE Family = "C03" -> CasesC03 [] Family = "C18" -> CasesC18 [] Family = "C04" -> CasesC04
+Cases == CASE Family = "C03" -> CasesC03(0) [] Family = "C18" -> CasesC18(0) [] Family = "C04" -> CasesC04(0)
 Law(cs) == CASE Family = "C03" -> LawC03(cs) [] Family = "C18" -> LawC18(cs) [] Family = "C04" -> LawC04(cs)
 
 StartOf(cs) == RInit(cs.fs, RootAt(cs.root), [i \in DOMAIN cs.inputs |-> Abs(W, cs.inputs[i])], cs.skip)
